@@ -1,6 +1,7 @@
 package main
 
 import (
+	"go/token"
 	"go/types"
 	"sort"
 	"strings"
@@ -475,6 +476,34 @@ func origins(c *Ctx, v ssa.Value, depth int) []string {
 				seen[g.Name()] = true
 				return
 			}
+			// a local variable assigned in several places, or inside a local closure that this function runs
+			// (`w.locked(func() { entries = append(entries, p) })`): every value ever stored into it
+			addr, actx := rc.resolve(x.X) // the cell itself, or a closure's captured reference to it
+			if al, ok := addr.(*ssa.Alloc); ok && x.Op == token.MUL && !cellEscapes(al) && !fieldStored(al) {
+				if sts := cellStores(al); len(sts) > 0 {
+					okAll := true
+					for _, st := range sts {
+						sc := actx
+						if st.Parent() != al.Parent() {
+							sc = findKidCtx(actx, st.Parent())
+						}
+						if sc == nil {
+							okAll = false
+							break
+						}
+						walk(sc, st.Val, d+1)
+					}
+					if okAll {
+						if al.Comment != "" || true {
+							// the variable's zero value (nil) may also reach the load
+							if _, isRef := deref(al.Type()).Underlying().(*types.Basic); !isRef {
+								seen["nil"] = true
+							}
+						}
+						return
+					}
+				}
+			}
 			seen["load:"+stripIDs(rc.path(x))] = true
 		case *ssa.Phi:
 			for _, e := range x.Edges {
@@ -513,6 +542,28 @@ func origins(c *Ctx, v ssa.Value, depth int) []string {
 	}
 	sort.Strings(out)
 	return out
+}
+
+// findKidCtx: a context of fn among the (already created) descendants of c.
+func findKidCtx(c *Ctx, fn *ssa.Function) *Ctx {
+	var found *Ctx
+	var rec func(x *Ctx, depth int)
+	rec = func(x *Ctx, depth int) {
+		if found != nil || depth > 6 {
+			return
+		}
+		for _, m := range x.kids {
+			for _, k := range m {
+				if k.Fn == fn {
+					found = k
+					return
+				}
+				rec(k, depth+1)
+			}
+		}
+	}
+	rec(c, 0)
+	return found
 }
 
 func walkCallResults(c *Ctx, call *ssa.Call, idx int, d int, walk func(*Ctx, ssa.Value, int), seen map[string]bool) {
